@@ -163,8 +163,8 @@ Proof.
   all: rewrite ?live_upd_same by (cbn [wpcf]; repeat match goal with E : wpcf _ = _ |- _ => rewrite E end; reflexivity).
   all: try (split; assumption).
   all: split; [try pool_inv | try (intros NP; exfalso; eapply NP; eauto; fail)].
-  all: try match goal with E : pl s = PLive ?p |- _ => pose proof (I1 p E) as (J1 & J2 & J3) end.
-  all: try match goal with E : lock s = None |- _ => pose proof (AT E) as TD; rewrite TD in * end.
+  all: try match goal with E : pl _ = PLive ?p |- _ => pose proof (I1 p E) as (J1 & J2 & J3) end.
+  all: try match goal with E : lock _ = None |- _ => pose proof (AT E) as TD; rewrite TD in * end.
   all: outs; subst; cbn [pstarted pmax p_set_items p_set_head p_set_tail p_set_idle p_set_done p_set_started p_set_shut] in *.
   all: unfold die_effs; cbn [ncreate filter is_create length app] in *.
   all: try (rewrite ncreate_postw).
